@@ -2,7 +2,7 @@
    the refutation witnesses.  Definitions only. *)
 From Coq Require Import ZArith List Bool String Ascii.
 From VV Require Import Base.F64 Base.Values Interp.Strategy Mep.Genome
-  Lang.LangBase Gen.Templates Lang.LangDefs Lang.SynDefs.
+  Lang.LangBase Gen.Templates Lang.LangDefs Lang.SynDefs Lang.CDenote.
 Import ListNotations.
 Local Open Scope Z_scope.
 
@@ -54,3 +54,25 @@ Definition pinned_length_c : bytes := bz "strlen(%%1%%)".
 Definition tmpl_div : bytes := bz "(%%1%%/%%2%%)".
 Definition tmpl_sub : bytes := bz "(%%1%%-%%2%%)".
 Definition tmpl_add : bytes := bz "(%%1%%+%%2%%)".
+
+(* ---- for the non-vacuity of C19_c_denotes_partial: a strtod that knows the
+   literals of the example, one parameter X1 = 1.5, and the program
+   FIFL(X1, 3.5, FDIV(X1, FSQRT(3.5)), FABS(X1)) *)
+Definition d35 : f64 := F64.of_bits 4615063718147915776.      (* 3.5 *)
+Definition d15 : f64 := F64.of_bits 4609434218613702656.      (* 1.5 *)
+Definition lit0 : bytes -> option f64 := fun w =>
+  if bytes_eqb w (bz "2") then Some two
+  else if bytes_eqb w (bz "3.500000") then Some d35 else None.
+Definition rho0 : bytes -> option f64 := fun w => if bytes_eqb w (bz "X1") then Some d15 else None.
+Definition env1 : lang_env := fun op =>
+  match op with
+  | 0 => Some (SClass tc_real_div)
+  | 1 => Some (SClass (var_class "X1"))
+  | 2 => Some (SClass tc_real_sqrt)
+  | 3 => Some (SConstD d35)
+  | 4 => Some (SClass tc_real_abs)
+  | 5 => Some (SClass tc_real_ifl)
+  | _ => None
+  end.
+Definition t_exec : tree :=
+  node4 5 (leaf 1) (leaf 3) (node2 0 (leaf 1) (node1 2 (leaf 3))) (node1 4 (leaf 1)).
